@@ -20,11 +20,12 @@ for k in $(seq 1 $W); do
     PYTHONWARNINGS=ignore PYTHONPATH=$R /venv/bin/python $s/demo.py >/dev/null 2>&1; pristine=$?
     git -C $R apply "$s/patch.diff" || { echo "$id patch-does-not-apply" >> /tmp/sw/$k/res; continue; }
     PYTHONWARNINGS=ignore PYTHONPATH=$R /venv/bin/python $s/demo.py >/dev/null 2>&1; patched=$?
-    out=$(BELLOWS_REPO=$R ./check $p 2>/tmp/sw/$k/err.$id | grep -E "VIOLATION|KNOWN" | grep -v "^KNOWN-FINDING: property=C14 a trust" | head -2 | tr '\n' ' ')
+    out=$(BELLOWS_REPO=$R ./check $p 2>/tmp/sw/$k/err.$id | tee /tmp/sw/$k/out.$id | grep -E "VIOLATION|KNOWN" | grep -v "^KNOWN-FINDING: property=C14 a trust" | head -2 | tr '\n' ' ')
     what=""
     rp=$(echo "$out" | sed -n 's/.*replay=\([^ ]*\).*/\1/p' | head -1)
     [ -n "$rp" ] && [ -f "$rp" ] && what=$(python3 -c "import json,sys; d=json.load(open('$rp')); print((d.get('what') or '')[:160].replace('\n',' '), '| breaks:', [b.get('kind') for b in d.get('breaks',[])])")
     git -C $R checkout -- . ; git -C $R clean -fdq
+    [ -z "$out" ] && ! grep -q "quick seed=" /tmp/sw/$k/out.$id 2>/dev/null && out="HARNESS-ERROR $(tail -1 /tmp/sw/$k/err.$id | cut -c1-120)"
     echo "$id demo(pristine=$pristine patched=$patched) ${out:-QUIET} :: $what" >> /tmp/sw/$k/res
   done < /tmp/sw/$k/list
  ) &
